@@ -2,6 +2,8 @@ package main
 
 import (
 	"fmt"
+	"os"
+	"strconv"
 	"go/token"
 	"sort"
 	"strings"
@@ -55,6 +57,7 @@ type Engine struct {
 	ufs       map[string]bool
 	ufApps    []ufApp
 	failSeq   int
+	pending   []pendingAssert
 	tracking  bool
 	changed   Value // disjunction of "this tracked store changed a value"
 	realSeq   int // > 0: realisation run for the failure with this ordinal
@@ -69,6 +72,7 @@ type Engine struct {
 	// accumulated over paths
 	funcs   map[string]bool
 	asserts int
+	assertQ int
 	nbranch int
 }
 
@@ -168,6 +172,9 @@ func (e *Engine) mkInt(s string, hasB bool, lo, hi int64) *Term {
 }
 
 func (e *Engine) assume(c Value) {
+	if _, sym := c.(*Term); sym {
+		e.flush()
+	}
 	switch c := c.(type) {
 	case bool:
 		if !c {
@@ -419,6 +426,19 @@ func (e *Engine) ufTable(m map[string]string) map[string][][3]string {
 	return t
 }
 
+var batchMax = func() int {
+	if n, err := strconv.Atoi(os.Getenv("GOSYM_BATCH")); err == nil && n > 0 {
+		return n
+	}
+	return 64
+}()
+
+type pendingAssert struct {
+	cond  string
+	label string
+	site  string
+}
+
 func (e *Engine) assert(c Value, label string) {
 	label, want := e.wantLabel(label)
 	if !want {
@@ -428,19 +448,64 @@ func (e *Engine) assert(c Value, label string) {
 	switch c := c.(type) {
 	case bool:
 		if !c {
+			e.flush()
 			e.fail("assert", label, "")
 		}
 	case *Term:
-		if e.solver.check("(not " + c.S + ")") {
-			e.fail("assert", label, "(not "+c.S+")")
-			// continue the path under the assumption that the assertion held
-			e.solver.send("(assert " + c.S + ")")
-			if !e.solver.check("") {
-				panic(Infeasible{})
-			}
+		// Symbolic obligations are batched: one query per flush decides the whole batch in the common case that
+		// all hold. Sound because the path condition only grows by branch decisions (a model violating an earlier
+		// obligation follows exactly one branch sequence, on which it is still a model at the flush) and the batch
+		// is flushed before every assumption and at the end of the path.
+		e.pending = append(e.pending, pendingAssert{cond: c.S, label: label, site: e.site()})
+		if len(e.pending) >= batchMax {
+			e.flush()
 		}
 	default:
 		unsupported("assert of %T", c)
+	}
+}
+
+// flush decides the pending obligations.
+func (e *Engine) flush() {
+	for len(e.pending) > 0 {
+		var sb strings.Builder
+		if len(e.pending) == 1 {
+			sb.WriteString("(not " + e.pending[0].cond + ")")
+		} else {
+			sb.WriteString("(or")
+			for _, p := range e.pending {
+				sb.WriteString(" (not " + p.cond + ")")
+			}
+			sb.WriteString(")")
+		}
+		e.assertQ++
+		if !e.solver.check(sb.String()) {
+			e.pending = e.pending[:0]
+			return
+		}
+		// some obligation fails: the first one in program order is reported
+		idx := -1
+		for i, p := range e.pending {
+			if len(e.pending) == 1 || e.solver.check("(not "+p.cond+")") {
+				idx = i
+				break
+			}
+			e.assertQ++
+		}
+		if idx < 0 {
+			panic(solverError{"batched obligations satisfiable together but none alone"})
+		}
+		p := e.pending[idx]
+		rest := append([]pendingAssert{}, e.pending[idx+1:]...)
+		// the obligations before idx hold on this path
+		e.pending = e.pending[:0]
+		e.failAt("assert", p.label, p.site, "(not "+p.cond+")")
+		// known finding: continue under the assumption that the obligation held
+		e.solver.send("(assert " + p.cond + ")")
+		if !e.solver.check("") {
+			panic(Infeasible{})
+		}
+		e.pending = rest
 	}
 }
 
